@@ -19,6 +19,14 @@ from . import facts
 from .core import Src, Anchor, find, walk, show, path_of, is_call_to, pat_binds
 from .mir import Mir
 
+from .canon import canon_view as _canon_view
+
+
+def _cv(f, src):
+    """canonical view of a tracking method: locals that only name an expression, private helpers and early returns are read through"""
+    return _canon_view(f, src, keep_lets={"builder", "join", "names", "operator"})
+
+
 LEVEL = "other"
 EXHAUSTIVE = True
 PUT = "privacy_unit_tracking/mod.rs"
@@ -137,7 +145,7 @@ def y1(rep, src):
         floor=4,
         necessary="without the equality (or with left=left) a row of unit u is combined with rows of other units and still attributed to u",
     )
-    f = src.one_fn(name="join", file=PUT, self_ty_re=r"^PrivacyUnitTracking")
+    f = _cv(src.one_fn(name="join", file=PUT, self_ty_re=r"^PrivacyUnitTracking"), src)
     key = "PrivacyUnitTracking::join"
     chains = builder_chains(f.body, "join")
     if len(chains) != 1:
@@ -261,7 +269,7 @@ def y1b(rep, src):
         necessary="taking the unit id from the published side yields NULL/foreign ids; attaching the tracked relation on the wrong side breaks the ON clause's qualified names",
     )
     for name, tracked in (("join_left_published", "right"), ("join_right_published", "left")):
-        f = src.one_fn(name=name, file=PUT, self_ty_re=r"^PrivacyUnitTracking")
+        f = _cv(src.one_fn(name=name, file=PUT, self_ty_re=r"^PrivacyUnitTracking"), src)
         key = "PrivacyUnitTracking::" + name
         ps = {p["pat"]["name"]: p["ty"] for p in f.params if not p.get("self") and p["pat"]["k"] == "ident"}
         pup = [n for n, t in ps.items() if "PupRelation" in t]
@@ -307,7 +315,7 @@ def y2(rep, src):
         floor=2,
         necessary="an aggregation that does not group by the unit id merges rows of several units into one tracked row",
     )
-    f = src.one_fn(name="reduce", file=PUT, self_ty_re=r"^PrivacyUnitTracking")
+    f = _cv(src.one_fn(name="reduce", file=PUT, self_ty_re=r"^PrivacyUnitTracking"), src)
     key = "PrivacyUnitTracking::reduce"
     hard = strategy_arms(rep, "Y2", f, key)
     if hard is None:
@@ -338,7 +346,7 @@ def y6(rep, src):
         floor=2,
         necessary="dropping or recomputing the unit column detaches rows from their unit",
     )
-    f = src.one_fn(name="map", file=PUT, self_ty_re=r"^PrivacyUnitTracking")
+    f = _cv(src.one_fn(name="map", file=PUT, self_ty_re=r"^PrivacyUnitTracking"), src)
     key = "PrivacyUnitTracking::map"
     chains = builder_chains(f.body, "map")
     if len(chains) != 1:
@@ -355,7 +363,7 @@ def y6(rep, src):
         inp = [m for m in ms if m["m"] == "input"]
         if not inp or not pup or pup[0] not in {x["segs"][0] for x in walk(inp[-1]["args"][0]) if x["k"] == "path" and len(x["segs"]) == 1}:
             rep.violation("Y6", key, "the rebuilt Map is not fed the tracked input", f.where())
-    f = src.one_fn(name="set", file=PUT, self_ty_re=r"^PrivacyUnitTracking")
+    f = _cv(src.one_fn(name="set", file=PUT, self_ty_re=r"^PrivacyUnitTracking"), src)
     key = "PrivacyUnitTracking::set"
     chains = builder_chains(f.body, "set")
     if len(chains) != 1:
